@@ -103,6 +103,27 @@ pub fn spell(text: &str, sp: Spelling) -> Option<String> {
 	}
 }
 
+/// The same text with the hex digits of every %XX triplet in lower case (None if unchanged).
+fn lower_hex(t: &str) -> Option<String> {
+	let b = t.as_bytes();
+	let mut out = b.to_vec();
+	let mut i = 0;
+	while i + 2 < b.len() {
+		if b[i] == b'%' && b[i + 1].is_ascii_hexdigit() && b[i + 2].is_ascii_hexdigit() {
+			out[i + 1] = b[i + 1].to_ascii_lowercase();
+			out[i + 2] = b[i + 2].to_ascii_lowercase();
+			i += 3;
+		} else {
+			i += 1;
+		}
+	}
+	if out != b {
+		String::from_utf8(out).ok()
+	} else {
+		None
+	}
+}
+
 pub struct Case {
 	pub mac: Mac,
 	pub text: String,
@@ -156,6 +177,18 @@ pub fn cases(refs: &Refs, quick: bool, warm: bool) -> Vec<Case> {
 		] {
 			texts.insert(extra.to_string());
 		}
+		// every literal with an upper-case hex digit in a %XX triplet also in lower case (and one
+		// mixed-case variant): the constant must keep the spelling
+		let mut variants: Vec<String> = Vec::new();
+		for t in &texts {
+			if let Some(l) = lower_hex(t) {
+				variants.push(l);
+			}
+		}
+		for extra in ["s:%7e", "s:/%c3%a9?%aa#%fF", "//%e2%82%ac@%c3%a9/%7euser"] {
+			variants.push(extra.to_string());
+		}
+		texts.extend(variants);
 		for (i, t) in texts.iter().enumerate() {
 			let expect = refs.valid(f, k, t.as_bytes());
 			out.push(Case { mac, text: t.clone(), spelling: Spelling::Escaped, expect });
